@@ -142,6 +142,10 @@ type c20Inputs struct {
 	IVBuf  []byte // 24 bytes; an 8-byte IV is the sub-slice IVBuf[:8] (spare capacity behind it)
 	ClearL []byte // Clear with 64-bit mdat headers
 	EncL   []byte // ClearL encrypted with cenc
+	// OptA / OptB: two audio files whose truns carry no per-sample field at all (every duration, size and flags value
+	// comes from the tfhd defaults), with different defaults: 3 x 100 bytes / 1024 ticks and 3 x 40 bytes / 960 ticks
+	OptA []byte
+	OptB []byte
 }
 
 var c20Pristine c20Inputs
@@ -199,17 +203,63 @@ func c20Setup() {
 		}
 		p.Key, _ = hexDecode(c20Key)
 		p.IVBuf, _ = hexDecode("7766554433221100a0a1a2a3a4a5a6a7b0b1b2b3b4b5b6b7")
+		p.OptA, p.OptB = c20DefaultsOnlyFile(100, 1024, 0x11), c20DefaultsOnlyFile(40, 960, 0x71)
 	})
+}
+
+// c20DefaultsOnlyFile builds init + two fragments of three equal audio samples each through the library, written with
+// trun optimisation, and verifies that the written truns carry no per-sample field.
+func c20DefaultsOnlyFile(size int, dur uint32, fill byte) []byte {
+	init := mp4.CreateEmptyInit()
+	init.AddEmptyTrack(48000, "audio", "und")
+	if err := init.Moov.Trak.SetAACDescriptor(aac.AAClc, 48000); err != nil {
+		vf.Harness("c20: %v", err)
+	}
+	var w bytes.Buffer
+	if err := init.Encode(&w); err != nil {
+		vf.Harness("c20: %v", err)
+	}
+	seg := mp4.NewMediaSegmentWithoutStyp()
+	seg.EncOptimize = mp4.OptimizeTrun
+	dt := uint64(0)
+	for fi := 0; fi < 2; fi++ {
+		fr, err := mp4.CreateFragment(uint32(fi+1), 1)
+		if err != nil {
+			vf.Harness("c20: %v", err)
+		}
+		for i := 0; i < 3; i++ {
+			d := bytes.Repeat([]byte{fill + byte(3*fi+i)}, size)
+			fr.AddFullSample(mp4.FullSample{Sample: mp4.Sample{Flags: mp4.SyncSampleFlags, Dur: dur, Size: uint32(size)}, DecodeTime: dt, Data: d})
+			dt += uint64(dur)
+		}
+		seg.AddFragment(fr)
+	}
+	if err := seg.Encode(&w); err != nil {
+		vf.Harness("c20: %v", err)
+	}
+	f, err := mp4.DecodeFile(bytes.NewReader(w.Bytes()))
+	if err != nil {
+		vf.Harness("c20: %v", err)
+	}
+	for _, sg := range f.Segments {
+		for _, fr := range sg.Fragments {
+			tr := fr.Moof.Traf.Trun
+			if tr.HasSampleDuration() || tr.HasSampleSize() || tr.HasSampleFlags() || tr.HasSampleCompositionTimeOffset() || tr.HasFirstSampleFlags() {
+				vf.Harness("c20: the optimised trun still carries per-sample fields (flags %#x)", tr.Flags)
+			}
+		}
+	}
+	return w.Bytes()
 }
 
 func (in *c20Inputs) clone() *c20Inputs {
 	cp := func(b []byte) []byte { return append([]byte{}, b...) }
-	return &c20Inputs{cp(in.Clear), cp(in.Enc), cp(in.EncCb), cp(in.Stream), cp(in.SPS), cp(in.PPS), cp(in.Slice), cp(in.HSPS), cp(in.SEI), cp(in.ADTS), cp(in.Key), cp(in.IVBuf), cp(in.ClearL), cp(in.EncL)}
+	return &c20Inputs{cp(in.Clear), cp(in.Enc), cp(in.EncCb), cp(in.Stream), cp(in.SPS), cp(in.PPS), cp(in.Slice), cp(in.HSPS), cp(in.SEI), cp(in.ADTS), cp(in.Key), cp(in.IVBuf), cp(in.ClearL), cp(in.EncL), cp(in.OptA), cp(in.OptB)}
 }
 
 func (in *c20Inputs) digest() string {
 	h := sha1.New()
-	for _, b := range [][]byte{in.Clear, in.Enc, in.EncCb, in.Stream, in.SPS, in.PPS, in.Slice, in.HSPS, in.SEI, in.ADTS, in.Key, in.IVBuf, in.ClearL, in.EncL} {
+	for _, b := range [][]byte{in.Clear, in.Enc, in.EncCb, in.Stream, in.SPS, in.PPS, in.Slice, in.HSPS, in.SEI, in.ADTS, in.Key, in.IVBuf, in.ClearL, in.EncL, in.OptA, in.OptB} {
 		h.Write(b)
 		h.Write([]byte{0xff})
 	}
@@ -244,6 +294,44 @@ func obs(parts ...interface{}) string {
 		h.Write([]byte{0})
 	}
 	return fmt.Sprintf("%x", h.Sum(nil)[:8])
+}
+
+// c20FullSamplesObs reads the full samples of every fragment of a decoded file, one fragment per scheduling step, and
+// afterwards looks again at what the first pass returned and at the trun tables themselves.
+func c20FullSamplesObs(f *mp4.File, t *sched.T) string {
+	var trex *mp4.TrexBox
+	if f.Init != nil && f.Init.Moov.Mvex != nil {
+		trex = f.Init.Moov.Mvex.Trex
+	}
+	var parts []interface{}
+	var kept [][]mp4.FullSample
+	for _, s := range f.Segments {
+		for _, fr := range s.Fragments {
+			t.Point()
+			fs, err := fr.GetFullSamples(trex)
+			parts = append(parts, fmt.Sprint(err))
+			kept = append(kept, fs)
+			for _, x := range fs {
+				parts = append(parts, fmt.Sprint(x.Sample, x.DecodeTime), x.Data)
+			}
+		}
+	}
+	t.Point()
+	for _, fs := range kept {
+		for _, x := range fs {
+			parts = append(parts, fmt.Sprint(x.Sample, x.DecodeTime), x.Data)
+		}
+	}
+	for _, s := range f.Segments {
+		for _, fr := range s.Fragments {
+			for _, tf := range fr.Moof.Trafs {
+				for _, tr := range tf.Truns {
+					parts = append(parts, fmt.Sprint(tr.Samples))
+				}
+			}
+		}
+	}
+	return obs(parts...)
 }
 
 func c20Bodies() []c20Body {
@@ -514,6 +602,26 @@ func c20Bodies() []c20Body {
 			var out bytes.Buffer
 			err = f.Encode(wr(&out, t, fine))
 			return obs(info.Bytes(), fmt.Sprint(data), out.Bytes(), err)
+		}},
+		{Name: "DecodeFile(truns without per-sample fields, defaults A)-GetFullSamples", Run: func(in *c20Inputs, t *sched.T, fine bool) string {
+			t.Point()
+			f, err := mp4.DecodeFile(rs(in.OptA, t, fine))
+			if err != nil {
+				return obs("err", err)
+			}
+			return c20FullSamplesObs(f, t)
+		}},
+		{Name: "DecodeFileSR(truns without per-sample fields, defaults B)-GetFullSamples", Run: func(in *c20Inputs, t *sched.T, fine bool) string {
+			var sr bits.SliceReader = bits.NewFixedSliceReader(in.OptB)
+			if fine {
+				sr = &ySR{sr, t}
+			}
+			t.Point()
+			f, err := mp4.DecodeFileSR(sr)
+			if err != nil {
+				return obs("err", err)
+			}
+			return c20FullSamplesObs(f, t)
 		}},
 		{Name: "DecodeFileSR(shared bytes)-Decrypt", Writes: true, Run: func(in *c20Inputs, t *sched.T, fine bool) string {
 			key, _ := hexDecode(c20Key)
@@ -850,7 +958,7 @@ func runC20(c *vf.Ctx) {
 			}
 		}
 	}
-	c.Rule = "stateless exploration of the real code under a cooperative scheduler (internal/sched): bodies = {DecodeFileSR->Info->EncodeSW, DecodeFile->Encode, DecodeFile->InitProtect/EncryptFragment->Encode, DecodeFile->DecryptInit/DecryptSegment->Encode, Annex B conversion + SPS/PPS/slice/SEI/ADTS parsing, DecodeFileSR(own copy)->decrypt cbcs, DecodeFile(*bytes.Buffer over the shared bytes, 64-bit mdat headers)->encrypt / ->decrypt, DecodeFile in lazy-mdat mode->Info->ReadData->Encode, DecodeFileSR(shared bytes)->decrypt}, each on its own objects over the same shared input bytes. Scheduling points: every method call on the yielding io.ReadSeeker / io.Writer / bits.SliceReader / bits.SliceWriter wrappers and every API-call boundary. Explored: every pair of bodies (incl. a body with itself) with all interleavings at call granularity (unbounded) and all schedules with <= 1 (thorough: 2) pre-emptions at I/O granularity; triples at call granularity with <= 2 pre-emptions. Oracle on every schedule: each body's observations (output bytes, Info text, parsed structures, errors) equal its solo run, SHA-1 of all shared inputs unchanged, deep fingerprint of every package-level variable of mp4/avc/hevc/bits/sei/aac/av1 (generated accessors) unchanged. Separate free-running pass: the same bodies in 16 goroutines under the race detector."
+	c.Rule = "stateless exploration of the real code under a cooperative scheduler (internal/sched): bodies = {DecodeFileSR->Info->EncodeSW, DecodeFile->Encode, DecodeFile->InitProtect/EncryptFragment->Encode, DecodeFile->DecryptInit/DecryptSegment->Encode, Annex B conversion + SPS/PPS/slice/SEI/ADTS parsing, DecodeFileSR(own copy)->decrypt cbcs, DecodeFile(*bytes.Buffer over the shared bytes, 64-bit mdat headers)->encrypt / ->decrypt, DecodeFile in lazy-mdat mode->Info->ReadData->Encode, DecodeFile / DecodeFileSR of two files whose truns carry no per-sample field (different tfhd defaults)->GetFullSamples per fragment->second look at the returned samples and the trun tables, DecodeFileSR(shared bytes)->decrypt}, each on its own objects over the same shared input bytes. Scheduling points: every method call on the yielding io.ReadSeeker / io.Writer / bits.SliceReader / bits.SliceWriter wrappers and every API-call boundary. Explored: every pair of bodies (incl. a body with itself) with all interleavings at call granularity (unbounded) and all schedules with <= 1 (thorough: 2) pre-emptions at I/O granularity; triples at call granularity with <= 2 pre-emptions. Oracle on every schedule: each body's observations (output bytes, Info text, parsed structures, errors) equal its solo run, SHA-1 of all shared inputs unchanged, deep fingerprint of every package-level variable of mp4/avc/hevc/bits/sei/aac/av1 (generated accessors) unchanged. Separate free-running pass: the same bodies in 16 goroutines under the race detector."
 	c.Bound = fmt.Sprintf("%d combinations; pre-emption bound %d at I/O granularity", len(combos), fineBound)
 	var mu sync.Mutex
 	var total int64
